@@ -44,6 +44,8 @@ RULES = [
     ('R7', re.compile(r'\b(payload|bytes|buf|body)\s*\.try_into\(\)\s*\.(?:expect\("[^"]*"\)|unwrap\(\))'), r'v_slice_to_array(\1)',
      'slice.try_into().unwrap() -> v_slice_to_array(slice)'),
     ('R7', re.compile(r'(\b\w+\[[^\]]+\])\.to_vec\(\)'), r'v_slice_to_vec(&\1)', 'slice[a..b].to_vec() -> v_slice_to_vec(&slice[a..b])'),
+    ('R6', re.compile(r'\b(\w+)\.as_bytes\(\)'), r'v_str_as_bytes(\1)', 'String::as_bytes -> trusted wrapper (uninterpreted str_bytes)'),
+    ('R6', re.compile(r'\bString::from_utf8\('), r'v_string_from_utf8(', 'String::from_utf8 -> trusted wrapper (uninterpreted is_utf8)'),
     ('R10', re.compile(r'\|_\|'), r'|_e|', 'closure parameter `_` -> `_e` (Verus rejects `_` closure params)'),
     ('R2', re.compile(r'\b(u16|u32|u64|i64|i32)::from_(le|be)_bytes\('), r'v_\1_from_\2_bytes(',
      'T::from_xx_bytes(e) -> trusted wrapper with vstd::bytes spec'),
@@ -126,7 +128,7 @@ class Extractor:
             self.rule_counts[rid] = self.rule_counts.get(rid, 0) + n
 
     # -- items ---------------------------------------------------------------
-    def item(self, rel, kind, name):
+    def item(self, rel, kind, name, rewrites=None):
         src, m = self._load(rel)
         r = find_item(src, m, kind, name)
         if r is None:
@@ -141,11 +143,18 @@ class Extractor:
             text, n9 = (text if re.match(r'\s*pub\b', text) else 'pub ' + text.lstrip(), 0 if re.match(r'\s*pub\b', text) else 1)
             text = re.sub(r'^pub\s*\([^)]*\)', 'pub', text)
         self._count('R9', n9)
+        text, nf = re.subn(r'#\[(from|source|serde[^\]]*)\]\s*', '', text)
+        self._count('R4', nf)
+        for (a, b) in (rewrites or []):
+            if a not in text:
+                raise LostAnchor('item %s: rewrite source %r not found' % (name, a))
+            text = text.replace(a, b)
+            self._count('RX', 1)
         return text
 
     # -- functions -------------------------------------------------------------
     def function(self, rel, qual, ret=None, new_name=None, contract='', loops=None,
-                 proofs=None, rewrites=None, vis='pub', drop_self_mut=False):
+                 proofs=None, rewrites=None, vis='pub', drop_self_mut=False, lebytes=None):
         src, m = self._load(rel)
         lo, hi = 0, len(m)
         if '::' in qual:
@@ -288,6 +297,19 @@ class Extractor:
 
         # ---- rewrite rules
         applied = []
+        if lebytes:
+            # R2 (type-directed): X.to_{le,be}_bytes() -> v_<T>_to_xx_bytes(X) using the declared integer type of X
+            def _le(mm):
+                nm, end = mm.group(1), mm.group(2)
+                if nm not in lebytes:
+                    raise Unsupported('%s: no declared type for `%s.to_%s_bytes()` (add it to //@lebytes)' % (qual, nm, end))
+                ty = lebytes[nm]
+                arg = ('*' + nm) if ty.startswith('*') else nm
+                return 'v_%s_to_%s_bytes(%s)' % (ty.lstrip('*'), end, arg)
+            new_body, n = re.subn(r'\b([\w.]+)\.to_(le|be)_bytes\(\)', _le, new_body)
+            if n:
+                self._count('R2', n)
+                applied.append('R2(typed) x%d' % n)
         for rid, rx, rep, desc in RULES:
             new_body, n = rx.subn(rep, new_body)
             if n:
@@ -333,8 +355,13 @@ def parse_template(text):
             i += 1
         elif s.startswith('//@item '):
             parts = s.split()
-            out.append(('item', dict(file=parts[1], kind=parts[2], name=parts[3])))
+            d = dict(file=parts[1], kind=parts[2], name=parts[3], rewrites=[])
             i += 1
+            while i < len(lines) and lines[i].strip().startswith('//@rewrite '):
+                mm = re.match(r'//@rewrite\s+"(.*)"\s*=>\s*"(.*)"\s*$', lines[i].strip())
+                d['rewrites'].append((mm.group(1), mm.group(2)))
+                i += 1
+            out.append(('item', d))
         elif s.startswith('//@extract '):
             parts = s.split()
             d = dict(file=parts[1], qual=parts[2], ret=None, new_name=None, contract=[], loops=[], proofs=[],
@@ -374,7 +401,11 @@ def parse_template(text):
                     mm = re.match(r'//@rewrite\s+"(.*)"\s*=>\s*"(.*)"\s*$', t)
                     if not mm:
                         raise Unsupported('bad //@rewrite line: %r' % t)
-                    d['rewrites'].append((mm.group(1), mm.group(2)))
+                    d['rewrites'].append((mm.group(1).replace('\\n', '\n'), mm.group(2).replace('\\n', '\n')))
+                elif t.startswith('//@lebytes '):
+                    for ent in t.split()[1:]:
+                        nm, ty = ent.split(':')
+                        d.setdefault('lebytes', {})[nm] = ty
                 elif t == '' or t.startswith('//'):
                     pass
                 else:
@@ -401,10 +432,10 @@ def assemble(template_text, repo_root):
             chunks.append(d)
         elif kind == 'item':
             chunks.append('// ---- extracted item %s %s from %s\n' % (d['kind'], d['name'], d['file']) +
-                          ex.item(d['file'], d['kind'], d['name']))
+                          ex.item(d['file'], d['kind'], d['name'], d.get('rewrites')))
         else:
             chunks.append('// ---- extracted fn %s from %s\n' % (d['qual'], d['file']) +
                           ex.function(d['file'], d['qual'], ret=d['ret'], new_name=d['new_name'],
                                       contract=d['contract'], loops=d['loops'], proofs=d['proofs'],
-                                      rewrites=d['rewrites'], vis=d['vis']))
+                                      rewrites=d['rewrites'], vis=d['vis'], lebytes=d.get('lebytes')))
     return '\n'.join(chunks), ex
